@@ -21,16 +21,16 @@ theorem abs_hnd (w : World) (h : Nat) :
 
 theorem abs_elem (w : World) (fi : Nat) (k : Nat × Nat) : (abs w).elem fi k = (w.file fi).elem k.1 k.2 := rfl
 
-/-- a handle stays well-formed when the DD it points to keeps tag, ref and "has data"-ness -/
+/-- a handle stays well-formed when the DD it points to keeps tag and ref and does not lose its data -/
 theorem WFH.transfer {w w' : World} {a : Acc} (h : WFH w a)
     (ht : ((w'.file a.file).dd a.slot).tag = ((w.file a.file).dd a.slot).tag)
     (hr : ((w'.file a.file).dd a.slot).ref = ((w.file a.file).dd a.slot).ref)
-    (he : ((w'.file a.file).dd a.slot).ext = none ↔ ((w.file a.file).dd a.slot).ext = none) : WFH w' a := by
+    (he : ((w'.file a.file).dd a.slot).ext = none → ((w.file a.file).dd a.slot).ext = none) : WFH w' a := by
   refine ⟨?_, ?_, ?_, ?_, h.special_new, h.blk⟩
   · unfold File.live; rw [ht]; exact h.live
   · unfold File.keyOf; rw [ht, hr]; exact h.user
   · rw [ht]; exact h.special_iff
-  · intro hs; rw [he]; exact h.new_iff hs
+  · intro hs hx; exact h.new_of_none hs (he hx)
 
 /-- changing only the position of one access record -/
 theorem WFW.setPosn {w : World} (hw : WFW w) (h : Nat) (a : Acc) (ha : w.acc h = some a) (p : Nat) :
@@ -42,10 +42,10 @@ theorem WFW.setPosn {w : World} (hw : WFW w) (h : Nat) (a : Acc) (ha : w.acc h =
   · simp only [e, if_true, Option.some.injEq] at ha'
     subst ha'
     have := hw.handles h a ha
-    exact ⟨this.live, this.user, this.special_iff, this.new_iff, this.special_new, this.blk⟩
+    exact ⟨this.live, this.user, this.special_iff, this.new_of_none, this.special_new, this.blk⟩
   · simp only [e, if_false] at ha'
     have := hw.handles h' a' ha'
-    exact ⟨this.live, this.user, this.special_iff, this.new_iff, this.special_new, this.blk⟩
+    exact ⟨this.live, this.user, this.special_iff, this.new_of_none, this.special_new, this.blk⟩
 
 /-- the view after changing only the position of `h` -/
 theorem abs_setPosn (w : World) (h : Nat) (a : Acc) (ha : w.acc h = some a) (p : Nat) :
@@ -147,31 +147,157 @@ theorem readCount_le (L p n : Nat) : p + readCount L p n ≤ max L p := by
   · omega
   · split <;> omega
 
-theorem stepOK_read (w : World) (hw : WFW w) (h : Nat) (n : Int) : StepOK w (.read h n) := by
+/-! ### `HIrefresh_new`: the calls that start with it are proved in two steps -/
+
+/-- `Hread`/`Hwrite`/`Hsetlength` after `HIrefresh_new` (every other call as it is) -/
+def stepC (w : World) : Op → World × Res
+  | .read h n => hreadCore w h n
+  | .write h bs => hwriteCore w h bs
+  | .setlength h len => hsetlengthCore w h len
+  | op => step w op
+
+def StepOKC (w : World) (op : Op) : Prop :=
+  WFW (stepC w op).1 ∧ ∃ v', specStep (abs w) op (stepC w op).2 = some v' ∧ v'.Eqv (abs (stepC w op).1)
+
+theorem stepOKC_fail_same (w : World) (hw : WFW w) (op : Op) (h : stepC w op = (w, .fail)) : StepOKC w op := by
+  unfold StepOKC
+  rw [h]
+  refine ⟨hw, abs w, ?_, Eqv.refl _⟩
+  cases op <;> rfl
+
+/-- the "new" flag of `h` is not stale -/
+def Fresh (w : World) (h : Nat) : Prop :=
+  ∀ a, w.acc h = some a → a.newElem = true → a.special = false → ((w.file a.file).dd a.slot).ext = none
+
+theorem refresh_fields (a : Acc) (f : File) :
+    (a.refresh f).file = a.file ∧ (a.refresh f).slot = a.slot ∧ (a.refresh f).posn = a.posn ∧
+    (a.refresh f).special = a.special ∧ (a.refresh f).appendable = a.appendable ∧ (a.refresh f).canWrite = a.canWrite ∧
+    (a.refresh f).blockSize = a.blockSize ∧ (a.refresh f).numBlocks = a.numBlocks ∧
+    ((a.refresh f).newElem = true → a.newElem = true ∧ (a.special = false → (f.dd a.slot).ext = none)) ∧
+    (a.newElem = false → (a.refresh f).newElem = false) := by
+  unfold Acc.refresh
+  split
+  · rename_i c
+    refine ⟨rfl, rfl, rfl, rfl, rfl, rfl, rfl, rfl, ?_, fun _ => rfl⟩
+    intro hc; exact absurd (show false = true from hc) (by decide)
+  · rename_i c
+    refine ⟨rfl, rfl, rfl, rfl, rfl, rfl, rfl, rfl, ?_, id⟩
+    intro hn
+    refine ⟨hn, fun hs => ?_⟩
+    cases hx : (f.dd a.slot).ext with
+    | none => rfl
+    | some e => exact absurd ⟨hn, hs, by rw [hx]; exact fun c => by cases c⟩ c
+
+theorem refresh_none (w : World) (h : Nat) (ha : w.acc h = none) : w.refresh h = w := by
+  unfold World.refresh; rw [ha]
+
+theorem refresh_spec (w : World) (hw : WFW w) (h : Nat) :
+    WFW (w.refresh h) ∧ abs (w.refresh h) = abs w ∧ Fresh (w.refresh h) h ∧ (∀ j, (w.refresh h).file j = w.file j) ∧
+    (∀ a, w.acc h = some a → (w.refresh h).acc h = some (a.refresh (w.file a.file))) ∧
+    (∀ h', h' ≠ h → (w.refresh h).acc h' = w.acc h') := by
+  have hdec : w.acc h = none ∨ ∃ a, w.acc h = some a := by cases w.acc h <;> simp
+  rcases hdec with ha | ⟨a, ha⟩
+  · rw [refresh_none w h ha]
+    refine ⟨hw, rfl, ?_, fun _ => rfl, ?_, fun _ _ => rfl⟩
+    · intro a ha'; rw [ha] at ha'; cases ha'
+    · intro a ha'; rw [ha] at ha'; cases ha'
+  · obtain ⟨r1, r2, r3, r4, r5, r6, r7, r8, r9, r10⟩ := refresh_fields a (w.file a.file)
+    have hh := hw.handles h a ha
+    by_cases hsame : a.refresh (w.file a.file) = a
+    · have e : w.refresh h = w := by unfold World.refresh; rw [ha]; simp only; rw [if_pos hsame]
+      rw [e]
+      refine ⟨hw, rfl, ?_, fun _ => rfl, fun a' ha' => by rw [ha] at ha'; cases ha'; rw [hsame]; exact ha, fun _ _ => rfl⟩
+      intro a' ha' hn hs
+      rw [ha] at ha'; cases ha'
+      rw [← hsame] at hn
+      exact (r9 hn).2 hs
+    · have e : w.refresh h = w.setAcc h (a.refresh (w.file a.file)) := by
+        unfold World.refresh; rw [ha]; simp only; rw [if_neg hsame]
+      rw [e]
+      refine ⟨⟨hw.files, hw.coh, ?_⟩, ?_, ?_, fun _ => rfl, ?_, ?_⟩
+      · intro h' a'' ha''
+        rw [acc_setAcc] at ha''
+        by_cases c : h' = h
+        · simp only [c, if_true, Option.some.injEq] at ha''
+          subst ha''
+          refine ⟨?_, ?_, ?_, ?_, ?_, ?_⟩
+          · show (w.file (a.refresh (w.file a.file)).file).live (a.refresh (w.file a.file)).slot; rw [r1, r2]; exact hh.live
+          · show UserKey ((w.file (a.refresh (w.file a.file)).file).keyOf (a.refresh (w.file a.file)).slot); rw [r1, r2]; exact hh.user
+          · show (a.refresh (w.file a.file)).special = isSpecial ((w.file (a.refresh (w.file a.file)).file).dd (a.refresh (w.file a.file)).slot).tag
+            rw [r1, r2, r4]; exact hh.special_iff
+          · show (a.refresh (w.file a.file)).special = false → ((w.file (a.refresh (w.file a.file)).file).dd (a.refresh (w.file a.file)).slot).ext = none → _
+            rw [r1, r2, r4]
+            intro hs hx
+            have hn := hh.new_of_none hs hx
+            unfold Acc.refresh
+            rw [if_neg (fun c => c.2.2 hx)]
+            exact hn
+          · rw [r4]; intro hs
+            have := hh.special_new hs
+            exact r10 this
+          · rw [r7, r8]; exact hh.blk
+        · simp only [c, if_false] at ha''
+          have := hw.handles h' a'' ha''
+          exact ⟨this.live, this.user, this.special_iff, this.new_of_none, this.special_new, this.blk⟩
+      · -- the view does not see the flag
+        show abs (w.setAcc h (a.refresh (w.file a.file))) = abs w
+        unfold abs
+        congr 1
+        funext h'
+        rw [acc_setAcc]
+        by_cases c : h' = h
+        · subst c
+          simp only [if_true, ha, Option.map_some, file_setAcc, r1, r2, r3]
+        · simp only [c, if_false, file_setAcc]
+      · intro a' ha' hn hs
+        rw [acc_setAcc, if_pos rfl] at ha'
+        simp only [Option.some.injEq] at ha'
+        subst ha'
+        show ((w.file (a.refresh (w.file a.file)).file).dd (a.refresh (w.file a.file)).slot).ext = none
+        rw [r1, r2]
+        rw [r4] at hs
+        exact (r9 hn).2 hs
+      · intro a' ha'
+        rw [ha] at ha'; cases ha'
+        rw [acc_setAcc, if_pos rfl]
+      · intro h' hne
+        rw [acc_setAcc, if_neg hne]
+
+/-- from the call after `HIrefresh_new` to the call -/
+theorem stepOK_of_core (w : World) (hw : WFW w) (h : Nat) (op : Op) (hop : step w op = stepC (w.refresh h) op)
+    (hc : StepOKC (w.refresh h) op) : StepOK w op := by
+  obtain ⟨_, hv, _⟩ := refresh_spec w hw h
+  unfold StepOK
+  unfold StepOKC at hc
+  rw [hop]
+  rw [hv] at hc
+  exact hc
+
+theorem stepOKC_read (w : World) (hw : WFW w) (h : Nat) (n : Int) : StepOKC w (.read h n) := by
   cases ha : w.acc h with
-  | none => exact stepOK_fail_same w hw _ (by simp [step, hread, ha])
+  | none => exact stepOKC_fail_same w hw _ (by simp [stepC, hreadCore, ha])
   | some a =>
     have hh := hw.handles h a ha
     have he := handle_elem w hw h a ha
     by_cases hnew : a.newElem = true
-    · exact stepOK_fail_same w hw _ (by simp [step, hread, ha, hnew])
+    · exact stepOKC_fail_same w hw _ (by simp [stepC, hreadCore, ha, hnew])
     have hnew0 : a.newElem = false := by simpa using hnew
     by_cases hsp : a.special = true
     · -- linked blocks
       have hsp' : isSpecial ((w.file a.file).dd a.slot).tag = true := by rw [← hh.special_iff]; exact hsp
       obtain ⟨li, ho, hl, h1, h2, _, _⟩ := (hw.files a.file).linked_ok a.slot hh.live hsp'
-      have hstep : step w (.read h n) =
+      have hstep : stepC w (.read h n) =
           match hlpRead (w.file a.file) li a.posn n with
           | .data c buf => (w.setAcc h { a with posn := a.posn + c.toNat }, .data c buf)
           | r => (w, r) := by
-        simp only [step, hread, ha]
+        simp only [stepC, hreadCore, ha]
         rw [if_neg hnew, if_pos hsp]
         simp only [acc_key_eq, h1]
         cases hlpRead (w.file a.file) li a.posn n <;> rfl
       by_cases hn : 0 ≤ n
       · rcases hlpRead_spec (w.file a.file) li h2 a.posn n hn with hr | hr
-        · exact stepOK_fail_same w hw _ (by rw [hstep, hr])
-        · unfold StepOK
+        · exact stepOKC_fail_same w hw _ (by rw [hstep, hr])
+        · unfold StepOKC
           rw [hstep, hr]
           simp only
           refine ⟨hw.setPosn h a ha _, _, ?_, abs_setPosn w h a ha _⟩
@@ -188,28 +314,28 @@ theorem stepOK_read (w : World) (hw : WFW w) (h : Nat) (n : Int) : StepOK w (.re
             · rw [hle]; simp [specRead]
           rw [hbuf]
           simp [hn]
-      · exact stepOK_fail_same w hw _ (by rw [hstep]; simp [hlpRead, (by omega : n < 0)])
+      · exact stepOKC_fail_same w hw _ (by rw [hstep]; simp [hlpRead, (by omega : n < 0)])
     · -- contiguous
       have hsp0 : a.special = false := by simpa using hsp
       have hsp' : isSpecial ((w.file a.file).dd a.slot).tag = false := by rw [← hh.special_iff]; exact hsp0
       have hext : ((w.file a.file).dd a.slot).ext ≠ none := by
-        intro e; have := (hh.new_iff hsp0).mpr e; rw [hnew0] at this; exact absurd this (by decide)
+        intro e; have := hh.new_of_none hsp0 e; rw [hnew0] at this; exact absurd this (by decide)
       cases hx : ((w.file a.file).dd a.slot).ext with
       | none => exact absurd hx hext
       | some e =>
         obtain ⟨o, l⟩ := e
         by_cases hn : n < 0
-        · exact stepOK_fail_same w hw _ (by simp [step, hread, ha, hnew0, hsp0, hn])
+        · exact stepOKC_fail_same w hw _ (by simp [stepC, hreadCore, ha, hnew0, hsp0, hn])
         have hn0 : 0 ≤ n := by omega
         have hdl : ddLen ((w.file a.file).dd a.slot) = (l : Int) := by simp [ddLen, hx]
         have hdo : (ddOff ((w.file a.file).dd a.slot)).toNat = o := by simp [ddOff, hx]
-        have hstep : step w (.read h n) =
+        have hstep : stepC w (.read h n) =
             let len : Int := if n = 0 ∨ n + a.posn > l then (l : Int) - a.posn else n
             if len < 0 then (w, .data 0 [])
             else match diskRead (w.file a.file).disk (o + a.posn) len.toNat with
               | none => (w, .fail)
               | some bs => (w.setAcc h { a with posn := a.posn + len.toNat }, .data len bs) := by
-          simp only [step, hread, ha]
+          simp only [stepC, hreadCore, ha]
           rw [if_neg hnew, if_neg hsp, if_neg hn]
           simp only [hdl, hdo]
           split
@@ -217,7 +343,7 @@ theorem stepOK_read (w : World) (hw : WFW w) (h : Nat) (n : Int) : StepOK w (.re
           · cases diskRead (w.file a.file).disk (o + a.posn) (if n = 0 ∨ n + (a.posn : Int) > l then (l : Int) - a.posn else n).toNat <;> rfl
         by_cases hlen : (if n = 0 ∨ n + a.posn > l then (l : Int) - a.posn else n) < 0
         · -- positioned beyond the end: 0 bytes (21b8ab5)
-          unfold StepOK
+          unfold StepOKC
           rw [hstep]; simp only [hlen, if_true]
           have hrc : readCount l a.posn n.toNat = 0 := by
             unfold readCount
@@ -250,9 +376,9 @@ theorem stepOK_read (w : World) (hw : WFW w) (h : Nat) (n : Int) : StepOK w (.re
               simp only [hge, this, if_false]
               exact ⟨trivial, by omega⟩
           cases hdr : diskRead (w.file a.file).disk (o + a.posn) (readCount l a.posn n.toNat) with
-          | none => exact stepOK_fail_same w hw _ (by rw [hstep]; simp only [hlen', if_false, hrc.1, hdr])
+          | none => exact stepOKC_fail_same w hw _ (by rw [hstep]; simp only [hlen', if_false, hrc.1, hdr])
           | some bs =>
-            unfold StepOK
+            unfold StepOKC
             rw [hstep]
             simp only [hlen', if_false, hrc.1, hdr]
             refine ⟨hw.setPosn h a ha _, _, ?_, abs_setPosn w h a ha _⟩
@@ -262,6 +388,10 @@ theorem stepOK_read (w : World) (hw : WFW w) (h : Nat) (n : Int) : StepOK w (.re
             have : (if n = 0 ∨ n + (a.posn : Int) > l then (l : Int) - a.posn else n) = (readCount l a.posn n.toNat : Nat) := by
               have := hrc.1; omega
             simp [hn0, this]
+
+
+theorem stepOK_read (w : World) (hw : WFW w) (h : Nat) (n : Int) : StepOK w (.read h n) :=
+  stepOK_of_core w hw h (.read h n) rfl (stepOKC_read (w.refresh h) (refresh_spec w hw h).1 h n)
 
 end H4.Elem
 
@@ -292,11 +422,11 @@ theorem hasKey_congr {f f' : File} {j t r : Nat} (ht : (f'.dd j).tag = (f.dd j).
 theorem WFW.update {w : World} (hw : WFW w) (fi : Nat) (hfi : fi < w.files.length) (f' : File) (hE : WFE f') (hC : Coh f')
     (h : Nat) (a' : Acc) (haf : a'.file = fi)
     (hH : f'.live a'.slot ∧ UserKey (f'.keyOf a'.slot) ∧ a'.special = isSpecial (f'.dd a'.slot).tag ∧
-      (a'.special = false → (a'.newElem = true ↔ (f'.dd a'.slot).ext = none)) ∧ (a'.special = true → a'.newElem = false) ∧
+      (a'.special = false → (f'.dd a'.slot).ext = none → a'.newElem = true) ∧ (a'.special = true → a'.newElem = false) ∧
       (1 ≤ a'.blockSize ∧ 1 ≤ a'.numBlocks))
     (hothers : ∀ h' a'', h' ≠ h → w.acc h' = some a'' → a''.file = fi →
       (f'.dd a''.slot).tag = ((w.file fi).dd a''.slot).tag ∧ (f'.dd a''.slot).ref = ((w.file fi).dd a''.slot).ref ∧
-      ((f'.dd a''.slot).ext = none ↔ ((w.file fi).dd a''.slot).ext = none)) :
+      ((f'.dd a''.slot).ext = none → ((w.file fi).dd a''.slot).ext = none)) :
     WFW ((w.setFile fi f').setAcc h a') := by
   have hfile : ∀ j, ((w.setFile fi f').setAcc h a').file j = if j = fi then f' else w.file j := by
     intro j; rw [file_setAcc, file_setFile w fi j f' hfi]
@@ -322,7 +452,7 @@ theorem WFW.update {w : World} (hw : WFW w) (fi : Nat) (hfi : fi < w.files.lengt
         rw [← ef] at h1 h2 h3
         exact hold.transfer (by rw [hf]; exact h1) (by rw [hf]; exact h2) (by rw [hf]; exact h3)
       · have hf : ((w.setFile fi f').setAcc h a').file a''.file = w.file a''.file := by rw [hfile]; simp [ef]
-        exact hold.transfer (by rw [hf]) (by rw [hf]) (by rw [hf])
+        exact hold.transfer (by rw [hf]) (by rw [hf]) (by rw [hf]; exact id)
 
 /-- the view after replacing file `fi` (one element of it changed to `x`) and access record `h` -/
 theorem abs_update {w : World} (hw : WFW w) (fi : Nat) (hfi : fi < w.files.length) (f' : File) (hw' : WFF f')
